@@ -1,6 +1,7 @@
 package rules
 
 import (
+	"sort"
 	"go/constant"
 	"go/token"
 	"go/types"
@@ -79,6 +80,7 @@ func purePredicate(f *ssa.Function, depth int) bool {
 
 func c12SkipLoops(c *Ctx, p *core.Prog) {
 	r := c.R
+	r.Rule("consume-examined", "outside loops, every advance() of pkg/sql/parser consumes a token that has been looked at since the cursor last moved: by a positive token test, by a peekToken() test before the previous advance, or by comparisons with EOF and the semicolon (inside loops skip-loop-terminator decides)")
 	r.Rule("skip-loop-terminator", "in pkg/sql/parser, a loop in which advance() can be reached while the current token has not been examined by a positive token test since the cursor last moved (it consumes any token) tests for both the end of input and the semicolon inside the loop")
 	pk := p.Pkg("pkg/models")
 	if pk == nil {
@@ -140,6 +142,80 @@ func c12SkipLoops(c *Ctx, p *core.Prog) {
 			return false
 		}
 		return walk(v)
+	}
+	// a value read off the result of p.peekToken() (its Literal / Type, possibly through strings.ToUpper …)
+	fromPeek := func(v ssa.Value) bool {
+		for i := 0; i < 10; i++ {
+			switch x := v.(type) {
+			case *ssa.UnOp:
+				v = x.X
+			case *ssa.FieldAddr:
+				v = x.X
+			case *ssa.Field:
+				v = x.X
+			case *ssa.ChangeType:
+				v = x.X
+			case *ssa.Convert:
+				v = x.X
+			case *ssa.Alloc:
+				// the token copied into a local: its single store
+				var st ssa.Value
+				for _, ref := range core.Referrers(x) {
+					if s, ok := ref.(*ssa.Store); ok && s.Addr == ssa.Value(x) {
+						if st != nil {
+							return false
+						}
+						st = s.Val
+					}
+				}
+				if st == nil {
+					return false
+				}
+				v = st
+			case *ssa.Call:
+				f := x.Call.StaticCallee()
+				if isParserRecv(f) && f.Name() == "peekToken" {
+					return true
+				}
+				if f != nil && core.FnPkg(f) != nil && core.FnPkg(f).Path() == "strings" && len(x.Call.Args) > 0 {
+					v = x.Call.Args[0]
+					continue
+				}
+				return false
+			default:
+				return false
+			}
+		}
+		return false
+	}
+	peekTest := func(cond ssa.Value) (bool, int) {
+		pol := 0
+		for {
+			u, ok := cond.(*ssa.UnOp)
+			if !ok || u.Op != token.NOT {
+				break
+			}
+			cond = u.X
+			pol ^= 1
+		}
+		switch x := cond.(type) {
+		case *ssa.BinOp:
+			if (x.Op == token.EQL || x.Op == token.NEQ) && (fromPeek(x.X) || fromPeek(x.Y)) {
+				if x.Op == token.NEQ {
+					pol ^= 1
+				}
+				return true, pol
+			}
+		case *ssa.Call:
+			if f := x.Call.StaticCallee(); f != nil && core.FnPkg(f) != nil && core.FnPkg(f).Path() == "strings" && f.Name() == "EqualFold" {
+				for _, a := range x.Call.Args {
+					if fromPeek(a) {
+						return true, pol
+					}
+				}
+			}
+		}
+		return false, 0
 	}
 	var constsOfHelper func(f *ssa.Function, depth int) []int64
 	classify := func(cond ssa.Value) tokTest {
@@ -256,12 +332,13 @@ func c12SkipLoops(c *Ctx, p *core.Prog) {
 		f := c.Call.StaticCallee()
 		return isParserRecv(f) && f.Name() == "advance"
 	}
-	nLoops, nSkip := 0, 0
+	nLoops, nSkip, nAdv := 0, 0, 0
 	const (
 		stE     = 1 // the current token has been examined by a positive test since the cursor last moved
 		stU     = 2 // it has not
 		stNoEOF = 4 // on some path it has not been compared with EOF since the cursor last moved
 		stNoSem = 8 // … nor with the semicolon
+		stNoPk  = 16 // on some path the token after the current one has not been positively examined through peekToken()
 	)
 	isCursorLoad := func(v ssa.Value) bool {
 		u, ok := v.(*ssa.UnOp)
@@ -299,11 +376,14 @@ func c12SkipLoops(c *Ctx, p *core.Prog) {
 			continue
 		}
 		sccs := blockSCCs(fn, nil, nil, nil)
-		if len(sccs) == 0 {
-			continue
-		}
 		// forward may-analysis over the whole function. On entry the token counts as examined: callers dispatch on it.
-		inState := map[*ssa.BasicBlock]int{fn.Blocks[0]: stE}
+		lbAll := map[*ssa.BasicBlock]bool{}
+		for _, scc := range sccs {
+			for _, b := range scc {
+				lbAll[b] = true
+			}
+		}
+		inState := map[*ssa.BasicBlock]int{fn.Blocks[0]: stE | stNoPk}
 		atAdvance := map[ssa.Instruction]int{}
 		atLoad := map[ssa.Value]int{} // state at each load of the cursor (a snapshot the code may compare with later)
 		for changed := true; changed; {
@@ -318,7 +398,11 @@ func c12SkipLoops(c *Ctx, p *core.Prog) {
 						atAdvance[in] |= st
 					}
 					if consumes(in) {
-						st = stU | stNoEOF | stNoSem
+						if isAdvance(in) && st&stNoPk == 0 {
+							st = stE | stNoPk // the token now current is the one peekToken() showed
+						} else {
+							st = stU | stNoEOF | stNoSem | stNoPk
+						}
 					}
 					if v, ok := in.(ssa.Value); ok && isCursorLoad(v) {
 						if atLoad[v]|st != atLoad[v] {
@@ -349,8 +433,17 @@ func c12SkipLoops(c *Ctx, p *core.Prog) {
 						}
 					}
 				}
+				pkTest, pkSucc := false, 0
+				if len(b.Instrs) > 0 {
+					if iff, ok := b.Instrs[len(b.Instrs)-1].(*ssa.If); ok {
+						pkTest, pkSucc = peekTest(iff.Cond)
+					}
+				}
 				for k, sc := range b.Succs {
 					out := st
+					if pkTest && k == pkSucc {
+						out &^= stNoPk
+					}
 					if t.isTest {
 						for _, kk := range t.consts {
 							if kk == eof {
@@ -361,7 +454,7 @@ func c12SkipLoops(c *Ctx, p *core.Prog) {
 							}
 						}
 						if k == t.posSucc {
-							out = stE
+							out = stE | out&stNoPk
 						}
 					}
 					if k == snapSucc {
@@ -372,6 +465,24 @@ func c12SkipLoops(c *Ctx, p *core.Prog) {
 						changed = true
 					}
 				}
+			}
+		}
+		{
+			var ks []ssa.Instruction
+			for in := range atAdvance {
+				ks = append(ks, in)
+			}
+			sort.Slice(ks, func(i, j int) bool { return ks[i].Pos() < ks[j].Pos() })
+			nb := 0
+			for _, in := range ks {
+				nAdv++
+				if atAdvance[in]&stU != 0 && atAdvance[in]&(stNoEOF|stNoSem) != 0 && !lbAll[in.Block()] {
+					nb++
+					r.Violate("consume-examined", core.FnName(fn)+sprintf("|blind#%d", nb), p.Pos(in.Pos()), "this advance() consumes a token that, on some path, nobody has looked at since the cursor last moved (no positive test of it, no peekToken() test before the previous advance, no comparison with EOF and `;`): when the statement is cut off here the token is its terminator, which recovery then cannot find")
+				}
+			}
+			if nb == 0 && len(ks) > 0 {
+				r.OK("consume-examined", core.FnName(fn), p.FnPos(fn), sprintf("%d advance() calls, each on an examined token", len(ks)))
 			}
 		}
 		seq := 0
@@ -440,4 +551,5 @@ func c12SkipLoops(c *Ctx, p *core.Prog) {
 	r.Extra("parser_loops_with_advance", nLoops)
 	r.Extra("skip_loops", nSkip)
 	r.Floor("skip-loop-terminator", nLoops, 30, "parser loops that call advance()")
+	r.Floor("consume-examined", nAdv, 300, "advance() calls in the parser")
 }
